@@ -365,6 +365,15 @@ def vRec : Expr → Bool
 def vNonRec : Expr → Bool
   | .close _ => true
   | .and a b => vNonRec a || vNonRec b
+  -- a close() result unified INTO the vertex (embedded in its literal, also through nested
+  -- embedded literals) sets the flag too (insertValueConjunct: `n.node.ClosedNonRecursive =
+  -- true`); an embedded reference does not
+  | .emb (.defn _) rest => vNonRec rest
+  | .emb e rest => vNonRec e || vNonRec rest
+  | .own _ rest => vNonRec rest
+  | .field _ _ _ rest => vNonRec rest
+  | .pat _ _ rest => vNonRec rest
+  | .ell rest => vNonRec rest
   | _ => false
 
 def hasEmb : Expr → Bool
@@ -391,6 +400,10 @@ structure Sched where
   arcs : List (Label × Kind × Expr × CI) := []
   pats : List (Pat × Expr × CI) := []
   kind : NK := .top
+  /-- references and calls are not processed inline but as scheduler TASKS (handleResolver,
+  handleExpr), which run after the inline part (struct literals, their fields, the ellipsis
+  bookkeeping) of the node's conjuncts -/
+  tasks : List (Expr × CI) := []
   deriving Inhabited
 
 def Sched.info (s : Sched) (id : CI) (ell top str : Bool) : Sched :=
@@ -406,24 +419,8 @@ def sched : Nat → Expr → CI → Sched → Sched
     let s := s.info id false (!x.concrete) false
     { s with kind := s.kind.meet (.sc x) }
   | f + 1, .and a b, id, s => sched f b id (sched f a id s)
-  | f + 1, .defn body, id, s =>
-    -- handleResolver → scheduleVertexConjuncts: a definition (ClosedRecursive vertex)
-    let id := { id with fromDef := true }
-    let v := s.ctx.nextV + 1
-    let (c, n, id) := addResolver { s.ctx with nextV := v } s.ns v true (vNonRec body) id false
-    sched f body id { s with ctx := c, ns := n }
-  | f + 1, .close arg, id, s =>
-    -- the call yields a Vertex with ClosedNonRecursive: insertValueConjunct → addResolver,
-    -- then scheduleVertexConjuncts (not a definition) → addResolver(forceIgnore)
-    let v := s.ctx.nextV + 1
-    let (c, n, id) := addResolver { s.ctx with nextV := v } s.ns v (vRec arg) true id false
-    let (c, n, id) := addResolver c n v (vRec arg) true id true
-    -- the conjuncts of the argument VERTEX are re-scheduled: for `close(#Def)` these are the
-    -- conjuncts of the definition itself (the reference is not resolved again at this node)
-    let arg' := match arg with
-      | .defn body => body
-      | e => e
-    sched f arg' id { s with ctx := c, ns := n }
+  | _ + 1, .defn body, id, s => { s with tasks := s.tasks ++ [(.defn body, id)] }
+  | _ + 1, .close arg, id, s => { s with tasks := s.tasks ++ [(.close arg, id)] }
   | f + 1, e, id, s =>
     -- a struct literal: `scheduleStruct`
     let s := s.info id false false true
@@ -451,6 +448,38 @@ def schedDecls : Nat → Expr → CI → Sched → Sched
     sched f x ci { s with ctx := c, ns := n }
 end
 
+/-- one scheduler task: a reference to a definition (handleResolver →
+scheduleVertexConjuncts) or a `close()` call (handleExpr → insertValueConjunct) -/
+def runTask (f : Nat) (e : Expr) (id : CI) (s : Sched) : Sched :=
+  match e with
+  | .defn body =>
+    -- a definition (ClosedRecursive vertex)
+    let id := { id with fromDef := true }
+    let v := s.ctx.nextV + 1
+    let (c, n, id) := addResolver { s.ctx with nextV := v } s.ns v true (vNonRec body) id false
+    sched f body id { s with ctx := c, ns := n }
+  | .close arg =>
+    -- the call yields a Vertex with ClosedNonRecursive: insertValueConjunct → addResolver,
+    -- then scheduleVertexConjuncts (not a definition) → addResolver(forceIgnore)
+    let v := s.ctx.nextV + 1
+    let (c, n, id) := addResolver { s.ctx with nextV := v } s.ns v (vRec arg) true id false
+    let (c, n, id) := addResolver c n v (vRec arg) true id true
+    -- the conjuncts of the argument VERTEX are re-scheduled: for `close(#Def)` these are the
+    -- conjuncts of the definition itself (the reference is not resolved again at this node)
+    let arg' := match arg with
+      | .defn body => body
+      | e => e
+    sched f arg' id { s with ctx := c, ns := n }
+  | _ => s
+
+/-- run the queued tasks in order (a task may queue further tasks) -/
+def drain (f : Nat) : Nat → Sched → Sched
+  | 0, s => s
+  | k + 1, s =>
+    match s.tasks with
+    | [] => s
+    | (e, id) :: rest => drain f k (runTask f e id { s with tasks := rest })
+
 /-- labels of the arcs of a node, in order of first insertion -/
 def arcLabels (arcs : List (Label × Kind × Expr × CI)) : List Label :=
   (arcs.map (·.1)).eraseDups
@@ -472,6 +501,7 @@ def evalNode : Nat → List (Expr × CI) → Ctx → List (Nat × Nat) → List 
   | 0, _, c, _, _, _, _ => { ctx := c, conj := [], repl := [], bottom := false, denied := [] }
   | f + 1, conjs, c, flatP, reqsP, conjP, hidden =>
     let s : Sched := conjs.foldl (fun s ec => sched (f + 1) ec.1 ec.2 s) { ctx := c }
+    let s := drain (f + 1) (f + 1) s
     let flat := s.ns.replaceIDs ++ flatP
     let labels := arcLabels s.arcs
     -- the requirement sets of this node (children inherit them)
